@@ -134,6 +134,7 @@ def _drive(case):
 
     server = case["role"] == "server"
     ping = case.get("ping")
+    aopen = bool(case.get("aopen")) and server
     items = []          # observations of the current step
 
     class LogStream(FakeIOStream):
@@ -150,12 +151,20 @@ def _drive(case):
     async def scenario(loop):
         s = LogStream()
         gates = []
+        open_gate = []
         if server:
             reg = []
 
             class H(W.WebSocketHandler):
-                def open(self):
-                    reg.append(self)
+                if aopen:
+                    async def open(self):
+                        reg.append(self)
+                        f = asyncio.Future()
+                        open_gate.append(f)
+                        await f          # the application is still setting up
+                else:
+                    def open(self):
+                        reg.append(self)
 
                 def on_message(self, m):
                     items.append(Tag("OnMessage"))
@@ -276,6 +285,9 @@ def _drive(case):
             elif k == "done":
                 if gates:
                     gates.pop(0).set_result(None)
+            elif k == "opendone":
+                if open_gate:
+                    open_gate.pop(0).set_result(None)
             elif k == "write":
                 try:
                     do_write("x")
@@ -285,7 +297,9 @@ def _drive(case):
             else:
                 raise ValueError(ev)
             await pump()
-            if s.reading() and not s.closed():
+            if open_gate:
+                lt = "opening"
+            elif s.reading() and not s.closed():
                 lt = "read"
             elif gates:
                 lt = "blocked"
@@ -342,7 +356,8 @@ def g_event(ev):
         return "(ELocalClose %s %s)" % (g_on(ev[1]), "None" if ev[2] is None else "(Some %s)" % g_text(ev[2]))
     if k == "recv":
         return "(ERecv %s)" % g_frame(ev[1])
-    return {"eof": "EPeerEof", "reset": "EPeerReset", "tick": "ETick", "done": "EMsgDone", "write": "EWrite"}[k]
+    return {"eof": "EPeerEof", "reset": "EPeerReset", "tick": "ETick", "done": "EMsgDone", "opendone": "EOpenDone",
+            "write": "EWrite"}[k]
 
 
 def coq_input(case):
@@ -351,7 +366,7 @@ def coq_input(case):
         gp = "None"
     else:
         gp = "(Some (%s, %s))" % (G.gn(ping[0]), g_on(ping[1]))
-    return "(mkcfg %s %s, %s)" % ("Server" if case["role"] == "server" else "Client", gp,
+    return "(mkcfg %s %s %s, %s)" % ("Server" if case["role"] == "server" else "Client", gp, G.gbool(bool(case.get("aopen"))),
                                   G.glist([g_event(e) for e in case["evs"]], "event"))
 
 
@@ -423,7 +438,7 @@ def py_check(case, obs):
             return False
         if ev[0] == "tick" and sent0 and not nsc:
             return False
-        if nsc and lt != "blocked" and not fired:
+        if nsc and lt not in ("blocked", "opening") and not fired:
             return False
         if sc and not nsc:
             return False
@@ -440,8 +455,10 @@ def py_check(case, obs):
 # ----------------------------------------------------------------------------
 # generator
 # ----------------------------------------------------------------------------
-def mk(role, ping, evs, coq=True):
+def mk(role, ping, evs, coq=True, aopen=False):
     c = {"role": role, "ping": ping, "evs": [list(e) if not isinstance(e, list) else e for e in evs]}
+    if aopen:
+        c["aopen"] = True    # server: open() is a coroutine, pending until the "opendone" event
     if not coq:
         c["coq"] = False     # run_impl + py_check only (big exhaustive enumerations, thorough tier)
     return c
@@ -465,6 +482,11 @@ def corpus_cases():
         # fixed c9a9e8d: client write_message after its own ping-timeout close put a data frame after the Close
         out.append(mk(role, [3, 2], [["tick"], ["tick"], ["write"], ["close", None, None], ["write"], ["tick"]]))
         out.append(mk(role, [3, 2], [["tick"], R("pong"), ["tick"], ["tick"], ["tick"], R("pong"), ["tick"]]))
+    # torn down while a coroutine open() is pending (seeded C16_1): close() in open(), closing timeout, open() returns
+    out.append(mk("server", None, [["close", 1001, "bye"], ["write"], ["tick"], ["opendone"], ["write"]], aopen=True))
+    out.append(mk("server", [3, 2], [["tick"], ["tick"], ["tick"], ["opendone"]], aopen=True))
+    out.append(mk("server", None, [CLOSE_1001, ["eof"], ["reset"], ["opendone"]], aopen=True))
+    out.append(mk("server", None, [R("msg", "a"), CLOSE_1001, ["opendone"], ["close", None, None], ["done"]], aopen=True))
     return out
 
 
@@ -498,8 +520,10 @@ def rand_event(rng):
         return ["reset"]
     if r < 0.76:
         return ["tick"]
-    if r < 0.88:
+    if r < 0.86:
         return ["done"]
+    if r < 0.90:
+        return ["opendone"]
     return ["write"]
 
 
@@ -509,6 +533,8 @@ WIDE = SMALL + [R("close"), R("closebad", 1002), R("msg", "s"), R("msg", "r"), R
                 ["close", None, "r"], R("close1", 3), R("closecode", 1000, "")]
 
 
+SMALL_O = SMALL + [["opendone"]]
+TINY_O = TINY + [["opendone"]]
 P_ALPHA = [["tick"], R("pong"), ["write"], ["close", 1001, "bye"], CLOSE_1001, ["eof"]]
 
 
@@ -528,6 +554,12 @@ def gen_cases(rng, tier):
             for ping in ([3, 2], [3, None]):
                 for seq in itertools.product(P_ALPHA[:5], repeat=3):
                     out.append(mk(role, ping, [["tick"]] + list(seq)))
+        # a coroutine open() pending from the start: every triple, with open() returning at any point or never
+        for seq in itertools.product(SMALL_O, repeat=3):
+            out.append(mk("server", [3, 2], seq, aopen=True))
+        for a in SMALL:
+            for b in SMALL:
+                out.append(mk("server", None, [a, b, ["opendone"], ["write"], ["done"]], aopen=True))
         n_rand = 300
     else:
         for role in ("server", "client"):
@@ -539,6 +571,10 @@ def gen_cases(rng, tier):
                 out.append(mk(role, [3, 2] if role == "client" else None, seq, coq=(k % 6 == 0)))
         for k, seq in enumerate(itertools.product(TINY, repeat=6)):
             out.append(mk("server", [3, 2], seq, coq=(k % 20 == 0)))
+        for k, seq in enumerate(itertools.product(SMALL_O, repeat=4)):
+            out.append(mk("server", [3, 2], seq, coq=(k % 4 == 0), aopen=True))
+        for k, seq in enumerate(itertools.product(TINY_O, repeat=5)):
+            out.append(mk("server", None, seq, coq=(k % 8 == 0), aopen=True))
         for ping in PINGS[1:]:
             for role in ("server", "client"):
                 for k, seq in enumerate(itertools.product(P_ALPHA, repeat=4)):
@@ -550,7 +586,8 @@ def gen_cases(rng, tier):
         n_rand = 3000
     for _ in range(n_rand):
         n = rng.randrange(1, 11)
-        out.append(mk(rng.choice(["server", "client"]), rng.choice(PINGS), [rand_event(rng) for _ in range(n)]))
+        out.append(mk(rng.choice(["server", "client"]), rng.choice(PINGS), [rand_event(rng) for _ in range(n)],
+                      aopen=rng.random() < 0.35))
     return out
 
 
@@ -566,11 +603,12 @@ def coq_select(i, case):
 def nontrivial(case, o):
     if not case["evs"]:
         return None
-    return (case["role"], case["ping"], case["evs"])
+    return (case["role"], case["ping"], bool(case.get("aopen")), case["evs"])
 
 
 def classify(case, o):
     yield "role=" + case["role"]
+    yield "open=" + ("coroutine" if case.get("aopen") and case["role"] == "server" else "sync")
     yield "ping=" + ("none" if case["ping"] is None else "%s/%s" % tuple(case["ping"]))
     yield "len=%d" % min(len(case["evs"]), 10)
     kinds = {e[0] if e[0] != "recv" else "recv:" + e[1][0] for e in case["evs"]}
@@ -601,6 +639,8 @@ def shrink(case):
         yield dict(case, evs=evs[:i] + evs[i + 1:])
     if case.get("ping") is not None:
         yield dict(case, ping=None)
+    if case.get("aopen"):
+        yield {k: v for k, v in case.items() if k != "aopen"}
 
 
 LEVEL_TEXT = ("Machine-checked (Coq) proofs over ALL event lists (local close, peer frames incl. Close with/without code/reason, "
@@ -622,5 +662,5 @@ ASSUMPTIONS = [
 ]
 RULE_NOTE = ("thorough: all 9^4 lists over SMALL x 2 roles x 2 ping configs, all 7^5 (both roles) and 7^6 (server) lists over TINY, "
              "all 6^4 ping scenarios x 4 ping configs x 2 roles, all 19^2 pairs over WIDE x 5 ping configs x 2 roles, 4000 random lists")
-RULE = ("event lists over {close(code,reason), recv frame, eof, reset, tick, msg-done, write} for both roles and 5 ping configurations; "
-        "exhaustive small scopes (see gen_cases) + random lists up to 10 events; every prefix is observed; distinct by (role, ping, events)")
+RULE = ("event lists over {close(code,reason), recv frame, eof, reset, tick, msg-done, open-done, write} for both roles and 5 ping configurations; "
+        "exhaustive small scopes (see gen_cases) + random lists up to 10 events; every prefix is observed; server also with a coroutine open() pending from the start; distinct by (role, ping, async-open, events)")
